@@ -602,7 +602,25 @@ def _first_diff(a, b):
     return 'none'
 
 
-ANALYSERS = {'liveness': a_liveness, 'entitlement': a_entitlement, 'duality': a_duality, 'log': a_log}
+def a_policy(w: World, val: dict, tag: str) -> List[Ob]:
+    """C06.R3 (client side): whenever the bundled client asks its playing policy for a card, the hand it passes is the hand
+    of the seat that is to play (its own, or dummy's when it is declarer) of the current board, together with its own mirror."""
+    obs = []
+    bad = [a for a in w.anomalies if a[1] == 'policy-args']
+    seen = set()
+    for role, kind, detail, where in bad:
+        if where in seen:
+            continue
+        seen.add(where)
+        obs.append(Ob('C06.R3', False, 'policy arguments', where, 'Client.playing_phase', f'policy given the wrong hand / engine: {_generalise(detail)}', f'[{tag}] {detail} (at {where})'))
+    own = sum(1 for seat, who, hand in w.policy_hands if seat == who)
+    dum = sum(1 for seat, who, hand in w.policy_hands if seat != who)
+    if not bad:
+        obs.append(Ob('C06.R3', True, f'[{tag}] {own} cards chosen from the own hand and {dum} from dummy\'s hand: always the hand of the seat on turn, as kept up to date by the observer'))
+    return obs
+
+
+ANALYSERS = {'policy': a_policy, 'liveness': a_liveness, 'entitlement': a_entitlement, 'duality': a_duality, 'log': a_log}
 
 _REPO: Dict[str, Repo] = {}
 
